@@ -1055,8 +1055,16 @@ class AnsiString:
 
         if isinstance(value, AnsiString):
             incoming_str = value._s
-            # Work on copies of the incoming points: value must not be modified below (it may even be self)
-            incoming_fmts = {k: _AnsiSettingPoint(list(v.add), list(v.rem)) for k, v in value._fmts.items()}
+            # Work on copies of the incoming points: value must not be modified below (it may even be self).
+            # The settings are copied as well: they are matched by reference and value may share them with self.
+            clones = {}
+            incoming_fmts = {
+                k: _AnsiSettingPoint(
+                    [clones.setdefault(id(s), AnsiSetting(s)) for s in v.add],
+                    [clones.setdefault(id(s), AnsiSetting(s)) for s in v.rem]
+                )
+                for k, v in value._fmts.items()
+            }
         else:
             raise TypeError(f'value is invalid type: {type(value)}')
 
